@@ -366,8 +366,9 @@ def run_maps(res, task):
     else:
         g = F.t3_shard(fam[1], fam[2], fam[3], extra_tap=True)
     for idx, nl in enumerate(g):
-        if tier == 'quick' and fam in ('t1', 't2') and idx % 4 != seed % 4: continue
-        si = (idx // 4 if (tier == 'quick' and fam in ('t1', 't2')) else idx) % len(STYLES)
+        if tier == 'quick' and fam in ('t1', 't2') and idx % 8 != seed % 8: continue
+        if tier == 'quick' and isinstance(fam, tuple) and idx % 3 != seed % 3: continue
+        si = ((idx // 8 if fam in ('t1', 't2') else idx // 3 if isinstance(fam, tuple) else idx) if tier == 'quick' else idx) % len(STYLES)
         b = build(nl, STYLES[si])
         nlines = len(b.circuit.lines)
         for capname, caps in cap_vectors(nlines, tier, idx):
